@@ -53,6 +53,13 @@ theorem compare_lowering_matches_source :
     ∧ Gen.C3Tab.compareOps = Model.C3.compareOps
     ∧ (∀ op ∈ Model.C3.compareOps, op ∈ Gen.C3Tab.parserBinops ∧ op ∈ Gen.C3Tab.irConds) := by decide +kernel
 
+set_option synthInstance.maxSize 1024 in
+/-- … and the *operand order* of the emitted `ir.CJump` when a named constant stands on the left, on the right or on
+    both sides of the comparison (read from real generated IR): operands stay in source order, the condition is the
+    operator as written — so `compare_lowering_correct` applies to `K op a` with `K` as first operand -/
+theorem compare_operand_order_matches_source :
+    Gen.C3Tab.cmpshape = intSizes.map (fun n => (n, cmpShapeTable n)) := by decide +kernel
+
 /-- … `gen_assignment_stmt` for every (shorthand assignment, type) and `gen_unop` -/
 theorem shorthand_lowering_matches_source :
     Gen.C3Tab.shorthands = intSizes.map (fun n => (n, shorthandTable n))
